@@ -371,6 +371,12 @@ def pure_gen(tier, rnd, mat):
     def line(fn, fields):
         return "pure\t%s\t%s" % (fn, "\t".join(dumps(f.v) if isinstance(f, J) else f for f in fields))
 
+    # the suspect from reading, stated directly and first (so that the minimal input is the one reported)
+    for p in (5, 1.5, [1, 2], None, True, {"alg": "HS256"}, "e30"):
+        cases.append(line("jws_hdr", [J({"protected": p})]))
+        cases.append(line("jws_hdr", [J({"protected": p, "header": {"a": 1}})]))
+        cases.append(line("jwe_hdr", [J({"protected": p, "unprotected": {"a": 1}}), J({"header": {"b": 2}})]))
+        dist["pure: header merge on every JSON type of 'protected'"] += 3
     for fn, fields in base:
         cases.append(line(fn, fields))
         dist["pure: calls on objects and keys made by the library (%s)" % PURE_CALL[fn].split(" ")[0]] += 1
@@ -395,11 +401,6 @@ def pure_gen(tier, rnd, mat):
                 fs[i] = J(mv)
                 cases.append(line(fn, fs))
                 dist["pure: one argument structurally mutated (%s)" % lab.split(" ")[0].split("=")[0]] += 1
-    # the suspect from reading, stated directly
-    for p in (5, 1.5, [1, 2], None, True, {"alg": "HS256"}, "e30"):
-        cases.append(line("jws_hdr", [J({"protected": p, "header": {"a": 1}})]))
-        cases.append(line("jwe_hdr", [J({"protected": p, "unprotected": {"a": 1}}), J({"header": {"b": 2}})]))
-        dist["pure: header merge on every JSON type of 'protected'"] += 2
     seen = set()
     uniq = []
     for c in cases:
